@@ -469,7 +469,17 @@ def main():
     c = Check('C17')
     c.prove()
     try:
-        build_driver()
+        # private driver: this component plus every component that registers kernels (the models' one-cell kernels are
+        # looked up by Go catalogue name at run time); if one of those does not build, run without kernels (the model
+        # comparison of runnable requests is then skipped and counted)
+        kcomps = sorted({os.path.basename(f)[:-len('.kernels')] for f in glob.glob(os.path.join(OCAML, 'registry.d', '*.kernels'))})
+        try:
+            build_driver(components=kcomps + ['c17'])
+            driver_components = kcomps + ['c17']
+        except BuildError as e1:
+            log('kernel components do not build, using the C17 model alone:', e1.what)
+            build_driver(components=['c17'])
+            driver_components = ['c17']
         build_harness(['jsonrun'])
     except BuildError as e:
         # the extracted model or the harness against /repo's working tree does not build: nothing can be compared
@@ -488,6 +498,14 @@ def main():
     env = dict(GOENV, JSONRUN_OWSINGLE=OWSINGLE)
     rng = c.rng
     quick = c.tier == 'quick'
+    coqchk = 'not run (quick tier)'
+    if not quick and not c.proof_broken:
+        try:
+            o = sh('timeout 2400 coqchk -silent -o -Q . OW OW.Properties.C17', cwd=COQ, timeout=2500)
+            coqchk = 'ok: ' + ' '.join(x.strip() for x in o.split('\n') if x.strip().startswith('* Axioms'))
+        except BuildError as e:
+            coqchk = 'FAILED'
+            c.proof_broken = ('coqchk OW.Properties.C17', e.output[-3000:])
 
     def impl(lines):
         return run_lines(JSONRUN, lines, env=env, timeout=3000)
@@ -577,6 +595,7 @@ def main():
 
     stats = {}
     debug = {'crashes': []}
+    kernel_mismatch = []
     registry_models, nokernel_models = set(), set()
     model_compared = model_skipped = model_skipped_wild = 0
     nonfinite_leaves = {'s:NaN': 0, 's:+Inf': 0, 's:-Inf': 0}
@@ -624,9 +643,9 @@ def main():
                 key = crash_key(name, e['P'], e.get('L', 0), e.get('rows'), cs['split'], direct, len(e['m']['States']), replay['panic'])
             else:
                 key = 'crash:request-class-%s' % e['cls']
-            if e['cls'] == 'noinputs':
+            if e['cls'] == 'noinputs' and key.endswith(':unclassified'):
                 key = 'crash:no-inputs-supplied'
-            elif e['cls'] == 'length':
+            elif e['cls'] == 'length' and key.endswith(':unclassified'):
                 key = 'crash:unequal-input-lengths'
             replay['kind'] = 'no-single-valid-document-or-crash'
             replay['key'] = key
@@ -662,7 +681,11 @@ def main():
                     c.violation('errres_%d.json' % i, replay)
             else:
                 m = e['m']
-                if direct is None:
+                if direct is None and m['Dimensions']:
+                    # tabular parameters cannot be expressed by name/value pairs: for nPts/nLVA >= 2 the dimensioned
+                    # direct run (FindDimensions on the 1-value-per-name column) is itself undefined; nothing to compare
+                    bump('direct-run-undefined-for-table-parameters')
+                elif direct is None:
                     # the runner answered but the direct run panics: compare nothing, report
                     ok = False
                     replay.update(kind='direct-run-panics-but-runner-answers', direct=out[ix + 1][:200])
@@ -725,6 +748,16 @@ def main():
                     diff = 'states model=%s impl=%s' % (str(ms)[:300], str(doc['states'])[:300])
         else:
             diff = 'model side: ' + ml[:200]
+        if diff and e['cls'] == 'run' and direct is not None and (diff.startswith('outputs') or diff.startswith('states')):
+            # is it the runner model, or the registered kernel of another component?  Run the kernel alone on the
+            # same parameter column / initial states / input rows and compare it with the direct run.
+            kl = kcase(name, e['col'], [h2f(h) for h in direct[2]], e['rows'])
+            kr = parse_kresult(run_model([kl])[0])
+            dr = ('OK', [[h2f(h) for h in r] for r in direct[0]], [h2f(h) for h in direct[1]])
+            kd = kresults_agree(dr, kr, 1e-9, 1e-12)
+            if kd:
+                kernel_mismatch.append({'model': name, 'kernel_vs_direct_run': kd, 'request': cs['text'][:400]})
+                diff = None
         if diff:
             c.corr_broken.append({'request': cs['text'], 'split': cs['split'], 'diff': diff})
         if i % 211 == 0:
@@ -874,13 +907,15 @@ def main():
         'text / view command; non-trivial = not the plain full request (something missing, extra, reordered, duplicated, '
         'unequal, error class or defaults used), JSA views of rank >= 2, every malformed string' % len(desc))
     c.finish(extra_cov={'exhaustive': False, 'breakdown': dict(sorted(stats.items())),
-                        'model_run_single_compared': model_compared, 'model_run_single_skipped_no_kernel': model_skipped, 'model_run_single_skipped_huge_parameter': model_skipped_wild,
+                        'model_run_single_compared': model_compared,
+                        'registered_kernel_differs_from_direct_run_other_component': kernel_mismatch[:10],
+                        'registered_kernel_differs_count': len(kernel_mismatch), 'model_run_single_skipped_no_kernel': model_skipped, 'model_run_single_skipped_huge_parameter': model_skipped_wild,
                         'models_with_registered_kernel': sorted(x for x in registry_models if x),
                         'models_without_registered_kernel': sorted(x for x in nokernel_models if x),
                         'nonfinite_leaves_seen': nonfinite_leaves, 'jsa_cases': len(jcases), 'jsa_impl_panics_out_of_range_shift': jsa_panics,
                         'malformed_cases_fuzzing': len(fuzz), 'malformed_answered_with_decode_error': fuzz_decode_errors,
                         'malformed_answered_otherwise': fuzz_other, 'descriptions_with_duplicate_names': dup_names,
-                        'ow_single_binary_used': have_owsingle},
+                        'ow_single_binary_used': have_owsingle, 'coqchk': coqchk, 'model_driver_components': driver_components},
              assumptions=['encoding/json (decoding of the request, encoding of the value tree) is trusted; requests are generated '
                           'together with their decoded form',
                           'the one-cell kernel, InitialiseStates and the generated Run wrapper are parameters of the Coq model '
